@@ -163,3 +163,23 @@ def int_valued_pol0(rng, m):
     r["has_init_policy"] = True
     r["pol0_as_int"] = True
     return True
+
+
+def add_unlisted_actions(rng, m, k=1):
+    """Give the problem k action vectors that its transition function understands but its action space does not list
+    (outside the bounding box of the listed ones), with tables of their own, and let the supplied initial policy use
+    them in some states."""
+    av = m["render"]["avecs"]
+    na, ne, ns = m["na"], m["ne"], m["ns"]
+    top = [max(v[d] for v in av) for d in range(len(av[0]))]
+    for j in range(k):
+        av.append([t + 1 + j for t in top])
+        for s in range(ns):
+            src = rng.randrange(na)
+            m["next"][s].append([rng.randrange(ns) for _ in range(ne)])
+            m["rew"][s].append([r + rng.choice([-1, 1, 2]) for r in m["rew"][s][src]])
+            m["pk"][s].append(list(m["pk"][s][src]))
+    m["nax"] = na + k
+    m["render"]["has_init_policy"] = True
+    m["pol0"] = [rng.randrange(na + k) if rng.random() < 0.6 else na + rng.randrange(k) for _ in range(ns)]
+    return m
